@@ -1,7 +1,7 @@
 CONSTANTS
   Validators = {1,2,3,4,5,6}
   Weight <- W111111
-  BadPayloads = {"bad"}
+  BadPayloads = {"bad", "huge"}
   Weaken = "none"
   Self = 1
   MaxV = 4
